@@ -10,7 +10,7 @@ rnd = int(sys.argv[3]) if len(sys.argv) > 3 else 3
 root = os.path.dirname(os.path.dirname(os.path.abspath(__file__)))
 checkout = os.environ.get("CHECKOUT", root)  # framework checkout whose ./check is run (parallel intakes need one each)
 wt = os.environ.get("WT", f"/var/tmp/repo-intake-{pid}")
-env = dict(os.environ, WT=wt, BASE="main")
+env = dict(os.environ, WT=wt, BASE=os.environ.get("BASE", "main"))
 existing = [int(re.search(r"-(\d+)$", d).group(1)) for d in glob.glob(os.path.join(root, "seeded", pid + "-*"))]
 k = max(existing + [0])
 for src in sorted(glob.glob(out + "/[0-9]*")):
